@@ -20,6 +20,7 @@ import Gzx.Proofs.Image2DBin
 import Gzx.Proofs.Image2DGlobal
 import Gzx.Properties.C14
 import Gzx.Properties.C01Mirror
+import Gzx.Properties.C01Multi
 import Gzx.Properties.C06PureRead
 namespace Gzx.Properties.C01Image
 open Gzx Gzx.Det Gzx.Det.Pure Gzx.Render Gzx.Image2D Gzx.ImagePath
@@ -183,6 +184,71 @@ def qrImageDecode {F : Type} (o : FOps F) (T : QRDec.Tables) (hint : ECI.Hint) (
   qrImagePath o (QRRef.dimension v) (QRRef.dimension v) (refModule v ec mask cw) q reqW reqH
     (fun b => QRDec.decode T QRComp.rsQR hint (toQR b))
 
+/-- **the pure-barcode image path IS the matrix path** — for ANY `n x n` module matrix with the finder facts (a
+    symbol of any encoder, also a damaged one), any margin ≥ 0 and requested size, any matrix decoder `decode`:
+    rendering it, handing the BitMatrix over as an image, binarising and reading it with PURE_BARCODE gives exactly
+    what `decode` gives on the module matrix itself (result or fault) — whenever the image is at least 40x40 pixels
+    or one of the pixels the global method samples is white; in every case that, or the binariser's NotFound. -/
+theorem qr_image_path_eq_matrix_path {F α : Type} (o : FOps F) (n : Nat) (m : Nat → Nat → Bool) (q reqW reqH : Int)
+    (hq : 0 ≤ q) (hm : QRFinderFacts n m) (ho : QRFloatExact o (qrScale n n q reqW reqH) n) (decode : Bits → Res α) :
+    ∃ img, renderQR n n m q reqW reqH = .ok img ∧
+      img.w = outSize reqW n (2 * q) ∧ img.h = outSize reqH n (2 * q) ∧
+      (40 ≤ img.w ∧ 40 ≤ img.h ∨ WhiteSample img →
+        qrImagePath o n n m q reqW reqH decode = liftRes (decode { w := n, h := n, rows := matrixRows n n m })) ∧
+      (qrImagePath o n n m q reqW reqH decode = liftRes (decode { w := n, h := n, rows := matrixRows n n m }) ∨
+        qrImagePath o n n m q reqW reqH decode = .error (.other .notFound)) := by
+  obtain ⟨img, himg, ew, eh, hany, hbig⟩ := qr_extractPureBits_binarised o n m q reqW reqH hq hm ho
+  have ok_of : ∀ bm, blackMatrix img = .ok bm →
+      QR.extractPureBits o bm.rdGo bm = .ok { w := n, h := n, rows := matrixRows n n m } →
+      qrImagePath o n n m q reqW reqH decode = liftRes (decode { w := n, h := n, rows := matrixRows n n m }) := by
+    intro bm hbm hex
+    unfold qrImagePath
+    rw [himg]
+    simp only [qrRead, hbm, hex]
+    cases decode { w := n, h := n, rows := matrixRows n n m } <;> rfl
+  refine ⟨img, himg, ew, eh, ?_, ?_⟩
+  · intro hc
+    obtain ⟨bm, hbm, hex⟩ := hbig hc
+    exact ok_of bm hbm hex
+  · rcases hany with hnf | ⟨bm, hbm, hex⟩
+    · right
+      unfold qrImagePath
+      rw [himg]
+      simp only [qrRead, hnf]
+    · left; exact ok_of bm hbm hex
+
+/-- whatever a matrix-level theorem says about `Decoder.Decode` on a REFERENCE symbol — `qr_roundtrip_bits`,
+    `qr_roundtrip_items`, `qr_roundtrip_segments`, the error-tolerance theorems of C05 on the clean symbol — holds of
+    the image path of that symbol -/
+theorem qr_image_of_matrix_result {F : Type} (o : FOps F) (T : QRDec.Tables) (hint : ECI.Hint)
+    (v : Nat) (ec : QRRef.EC) (mask : Nat) (bits : List Bool) (want : QRDec.Decoded)
+    (hsym : QRDec.decode T QRComp.rsQR hint (C01.refSymbol v ec mask bits) = .ok want)
+    (q reqW reqH : Int) (hq : 0 ≤ q)
+    (ho : QRFloatExact o (qrScale (QRRef.dimension v) (QRRef.dimension v) q reqW reqH) (QRRef.dimension v)) :
+    let cw := QRRef.finalCodewords v ec (QRRef.terminate (QRRef.dataCodewords v ec) bits)
+    let n := QRRef.dimension v
+    (40 ≤ outSize reqW n (2 * q) → 40 ≤ outSize reqH n (2 * q) →
+      qrImageDecode o T hint v ec mask cw q reqW reqH = .ok want) ∧
+    ((∀ img, renderQR n n (refModule v ec mask cw) q reqW reqH = .ok img → WhiteSample img) →
+      qrImageDecode o T hint v ec mask cw q reqW reqH = .ok want) ∧
+    (qrImageDecode o T hint v ec mask cw q reqW reqH = .ok want ∨
+      qrImageDecode o T hint v ec mask cw q reqW reqH = .error (.other .notFound)) := by
+  intro cw n
+  unfold C01.refSymbol at hsym
+  obtain ⟨img, himg, ew, eh, hbig, hany⟩ := qr_image_path_eq_matrix_path o n (refModule v ec mask cw) q reqW reqH hq
+    (refModule_finder v ec mask cw) ho (fun b => QRDec.decode T QRComp.rsQR hint (toQR b))
+  have hdec : QRDec.decode T QRComp.rsQR hint
+      (toQR { w := n, h := n, rows := matrixRows n n (refModule v ec mask cw) }) = .ok want := by
+    rw [show (toQR { w := n, h := n, rows := matrixRows n n (refModule v ec mask cw) }) =
+      QRComp.matrixOf (QRRef.refMatrix v ec mask cw) from toQR_ref v ec mask cw]
+    exact hsym
+  simp only [hdec, liftRes] at hbig hany
+  refine ⟨?_, ?_, hany⟩
+  · intro a b
+    exact hbig (Or.inl ⟨by rw [ew]; exact a, by rw [eh]; exact b⟩)
+  · intro hwhite
+    exact hbig (Or.inr (hwhite img himg))
+
 /-- **`qr_image_pure_roundtrip`** — payload bits (mode, count, data of ANY segment list that fits version `v` at level
     `ec`) → reference symbol (terminator, padding, RS parity, interleaving, placement, mask 0..7, function patterns) →
     `renderResult` with ANY requested width and height and ANY margin ≥ 0 → image → luminances → `HybridBinarizer` →
@@ -210,35 +276,36 @@ theorem qr_image_pure_roundtrip {F : Type} (o : FOps F) (T : QRDec.Tables) (hT :
     (qrImageDecode o T hint v ec mask cw q reqW reqH = .ok want ∨
       qrImageDecode o T hint v ec mask cw q reqW reqH = .error (.other .notFound)) := by
   intro cw want n
-  have hsym := C01.qr_roundtrip_bits T hT hint v h1 h40 ec mask hm bits hfit parsed hparse
-  unfold C01.refSymbol at hsym
-  have hf := refModule_finder v ec mask cw
-  obtain ⟨img, himg, ew, eh, hany, hbig⟩ := qr_extractPureBits_binarised o n (refModule v ec mask cw) q reqW reqH hq hf ho
-  have ok_of : ∀ bm, blackMatrix img = .ok bm →
-      QR.extractPureBits o bm.rdGo bm = .ok { w := n, h := n, rows := matrixRows n n (refModule v ec mask cw) } →
-      qrImageDecode o T hint v ec mask cw q reqW reqH = .ok want := by
-    intro bm hbm hex
-    unfold qrImageDecode qrImagePath
-    rw [himg]
-    have hdec : QRDec.decode T QRComp.rsQR hint
-        (toQR { w := n, h := n, rows := matrixRows n n (refModule v ec mask cw) }) = .ok want := by
-      rw [show (toQR { w := n, h := n, rows := matrixRows n n (refModule v ec mask cw) }) =
-        QRComp.matrixOf (QRRef.refMatrix v ec mask cw) from toQR_ref v ec mask cw]
-      exact hsym
-    simp only [qrRead, hbm, hex, hdec]
-  refine ⟨?_, ?_, ?_⟩
-  · intro a b
-    obtain ⟨bm, hbm, hex⟩ := hbig (Or.inl ⟨by rw [ew]; exact a, by rw [eh]; exact b⟩)
-    exact ok_of bm hbm hex
-  · intro hwhite
-    obtain ⟨bm, hbm, hex⟩ := hbig (Or.inr (hwhite img himg))
-    exact ok_of bm hbm hex
-  · rcases hany with hnf | ⟨bm, hbm, hex⟩
-    · right
-      unfold qrImageDecode qrImagePath
-      rw [himg]
-      simp only [qrRead, hnf]
-    · left; exact ok_of bm hbm hex
+  exact qr_image_of_matrix_result o T hint v ec mask bits want
+    (C01.qr_roundtrip_bits T hT hint v h1 h40 ec mask hm bits hfit parsed hparse) q reqW reqH hq ho
+
+/-- **`qr_image_pure_roundtrip_items`** — content level: EVERY list of items in any order (numeric / alphanumeric /
+    byte / Kanji / Hanzi segments, ECI designators, FNC1 indicators, structured-append headers; C01Multi
+    `qr_roundtrip_items`) that fits (version, level), written as the reference symbol and rendered at any size and
+    margin ≥ 0, is read back from the IMAGE in pure-barcode mode as the meaning of the list, the level, the version and
+    the written data codewords -/
+theorem qr_image_pure_roundtrip_items {F : Type} (o : FOps F) (T : QRDec.Tables) (hT : QRComp.TablesConform T)
+    (hint : ECI.Hint) (v : Nat) (h1 : 1 ≤ v) (h40 : v ≤ 40) (ec : QRRef.EC) (mask : Nat) (hm : mask < 8)
+    (items : List QRMulti.Item) (g : List Nat → ECI.Charset)
+    (hc : ∀ it ∈ items, it.Content T.eci)
+    (hg : ∀ bs ∈ QRMulti.guessed false items, ECI.guessCharset T.eci bs hint = .ok (g bs))
+    (hfit : (QRMulti.bitsOf v items).length ≤ 8 * QRRef.dataCodewords v ec)
+    (q reqW reqH : Int) (hq : 0 ≤ q)
+    (ho : QRFloatExact o (qrScale (QRRef.dimension v) (QRRef.dimension v) q reqW reqH) (QRRef.dimension v)) :
+    let bits := QRMulti.bitsOf v items
+    let cw := QRRef.finalCodewords v ec (QRRef.terminate (QRRef.dataCodewords v ec) bits)
+    let want : QRDec.Decoded := ⟨QRMulti.toParsed (QRMulti.run T.eci g {} items), QRComp.toDecEC ec, v,
+      QRRef.terminate (QRRef.dataCodewords v ec) bits, false⟩
+    let n := QRRef.dimension v
+    (40 ≤ outSize reqW n (2 * q) → 40 ≤ outSize reqH n (2 * q) →
+      qrImageDecode o T hint v ec mask cw q reqW reqH = .ok want) ∧
+    ((∀ img, renderQR n n (refModule v ec mask cw) q reqW reqH = .ok img → WhiteSample img) →
+      qrImageDecode o T hint v ec mask cw q reqW reqH = .ok want) ∧
+    (qrImageDecode o T hint v ec mask cw q reqW reqH = .ok want ∨
+      qrImageDecode o T hint v ec mask cw q reqW reqH = .error (.other .notFound)) := by
+  intro bits cw want n
+  exact qr_image_of_matrix_result o T hint v ec mask bits want
+    (C01Multi.qr_roundtrip_items T hT hint v h1 h40 ec mask hm items g hc hg hfit) q reqW reqH hq ho
 
 /-- the same for the symbol the MIRROR of the Go encoder builds (`Encoder_encode`'s back half: terminateBits,
     interleaveWithECBytes, chooseMaskPattern / forced mask, MatrixUtil_buildMatrix): it is the reference symbol
